@@ -19,7 +19,11 @@ import (
 	"golang.org/x/telemetry/internal/verifshim/ref"
 	"golang.org/x/telemetry/internal/verifshim/vos"
 	"golang.org/x/telemetry/internal/verifshim/vrep"
+	"golang.org/x/telemetry/internal/verifshim/vtime"
 )
+
+// zzvDefaultCounterTime is the library's own clock, captured before any harness replaces it.
+var zzvDefaultCounterTime = CounterTime
 
 // zzvSpanNow returns the span a process opening its counter file right now gets: a fresh
 // process, the real rotate1 (the only entry point the property speaks of), span read from
@@ -96,6 +100,32 @@ func TestVerifC09(t *testing.T) {
 			}
 			res.Class(fmt.Sprintf("span/%02d/ahead=%d", int(day.Month()), (wd-int(day.Weekday())+6)%7+1))
 		}
+	}
+	// (a2) the package's own clock (CounterTime as initialised by the library) over a system clock that
+	// reports local times in zones ahead of and behind UTC: the span is the UTC day's, whatever the zone.
+	if p.Mine(1) {
+		saved := CounterTime
+		CounterTime = zzvDefaultCounterTime
+		for wd := 0; wd < 7; wd += 3 {
+			os.WriteFile(wfile, []byte(fmt.Sprintf("%d\n", wd)), 0o666)
+			for day := time.Date(2024, 2, 24, 0, 0, 0, 0, time.UTC); day.Before(time.Date(2024, 3, 9, 0, 0, 0, 0, time.UTC)); day = day.AddDate(0, 0, 1) {
+				for _, tod := range []time.Duration{0, 5 * time.Hour, 12 * time.Hour, 19 * time.Hour, 24*time.Hour - 1} {
+					for _, zone := range []int{0, 14, -12, 5} {
+						now := day.Add(tod)
+						vtime.NowHook = func() time.Time { return now.In(time.FixedZone("z", zone*3600)) }
+						b, e, err := zzvSpanNow()
+						vtime.NowHook = nil
+						res.Evaluations++
+						rb, re := ref.WeekSpan(now, time.Weekday(wd))
+						if err != nil || !b.Equal(rb) || !e.Equal(re) {
+							res.Violate("span-differs:system-clock-zone", fmt.Sprintf("system clock %s (zone UTC%+d) with week-end day %d: span [%s, %s) err=%v, documented rule gives [%s, %s)", now.Format(time.RFC3339), zone, wd, b.Format(time.RFC3339), e.Format(time.RFC3339), err, rb.Format(time.RFC3339), re.Format(time.RFC3339)), nil)
+						}
+					}
+				}
+				res.Class("span/system-clock-zones")
+			}
+		}
+		CounterTime = saved
 	}
 	// (b) malformed settings.
 	if p.Mine(0) {
